@@ -38,7 +38,7 @@ class UpdatableRandomRange:
         than the old top. This preserves the rule that no value is
         ever produced twice.
         """
-        if new_min == self.min:
+        if new_min == self.start:
             self.set_new_max(new_max)
         else:
             assert new_min >= self.orig_max, (new_min, self.orig_max)
@@ -46,7 +46,7 @@ class UpdatableRandomRange:
 
     def _set_new_range_immediately(self, new_min: int, new_max: int):
         assert new_max > new_min
-        self.min = new_min
+        self.start = self.min = new_min
         self.orig_max = self.cur_max = new_max
         self.num_generator = random_range(self.min, self.orig_max)
 
